@@ -338,10 +338,10 @@ class AbstractDateTime(AnyAtomicType):
     def iso_year(self) -> str:
         """The ISO string representation of the year field."""
         year = self.year
-        if -9999 <= year < -1:
-            return '{:05}'.format(year if self._xsd_version == '1.0' else year + 1)
-        elif year == -1:
-            return '-0001' if self._xsd_version == '1.0' else '0000'
+        if year < 0 and self._xsd_version != '1.0':
+            year += 1  # XSD 1.1: the year before 0001 is written 0000
+        if -9999 <= year < 0:
+            return '{:05}'.format(year)
         elif 0 <= year <= 9999:
             return '{:04}'.format(year)
         else:
